@@ -108,6 +108,9 @@ class SourceDataWrapper(ABC):
             # determine the numpy number dtype
             number_type = known_dtypes.get(dtype_name, dset_row0.dtype)
             ReprCodeConverter.validate_numpy_dtype(number_type)
+            # use the native byte order in the data chunks (whatever the byte order of the source is),
+            # so that every slot - scalar or array - is swapped to big-endian exactly once when written
+            number_type = np.dtype(number_type).newbyteorder('=')
 
             # determine the dtype of the data set (2- or 3-tuple)
             dt = (dtype_name, number_type)
